@@ -250,6 +250,41 @@ def run(ctx):
                       ("self._end_delta", "relativedelta.relativedelta(hours=+1, month=10, day=31, weekday=relativedelta.SU(-1))")):
         ns = [n for n in rcfg.live_nodes() if n.kind == "stmt" and isinstance(n.ast, ast.Assign) and src(n.ast.targets[0]) == attr and isinstance(n.ast.value, ast.Call)]
         ctx.ob("C08.RANGE", ri, "default %s rule" % attr.split("_")[1], len(ns) == 1 and src(ns[0].ast.value) == txt, construct="%s default" % attr)
+    from .. import summ
+    summ.check_ref(ctx, "C08.RANGE", ri, "tzrange(): offsets may be timedeltas or seconds; a missing standard offset is zero; the daylight offset is the given one "
+                   "(zero included), else standard + 1 hour when a daylight name and a standard offset are given, else zero; start / end default to the "
+                   "April / October rules only when a daylight name is given; the saving is daylight minus standard; hasdst iff there is a start rule", """
+        self._std_abbr = stdabbr
+        self._dst_abbr = dstabbr
+        try:
+            stdoffset = stdoffset.total_seconds()
+        except (TypeError, AttributeError):
+            pass
+        try:
+            dstoffset = dstoffset.total_seconds()
+        except (TypeError, AttributeError):
+            pass
+        if stdoffset is not None:
+            self._std_offset = datetime.timedelta(seconds=stdoffset)
+        else:
+            self._std_offset = ZERO
+        if dstoffset is not None:
+            self._dst_offset = datetime.timedelta(seconds=dstoffset)
+        elif dstabbr and stdoffset is not None:
+            self._dst_offset = self._std_offset + datetime.timedelta(hours=+1)
+        else:
+            self._dst_offset = ZERO
+        if dstabbr and start is None:
+            self._start_delta = relativedelta.relativedelta(hours=+2, month=4, day=1, weekday=relativedelta.SU(+1))
+        else:
+            self._start_delta = start
+        if dstabbr and end is None:
+            self._end_delta = relativedelta.relativedelta(hours=+1, month=10, day=31, weekday=relativedelta.SU(-1))
+        else:
+            self._end_delta = end
+        self._dst_base_offset_ = self._dst_offset - self._std_offset
+        self.hasdst = bool(self._start_delta)
+        """, construct="tzrange.__init__ table", outcome=summ.outcome_with(stores=lambda t: t.startswith("self."), result=False))
     tm = prog.method(tr.qualname, "transitions", "C08.RANGE")
     okt = "base_year + self._start_delta" in src(tm.node) and "base_year + self._end_delta" in src(tm.node) and "datetime.datetime(year, 1, 1)" in src(tm.node)
     ctx.ob("C08.RANGE", tm, "transitions are 1 January of the year plus the start / end rule", okt, construct="transitions body")
